@@ -483,7 +483,16 @@ def check_keys(ctx, w):
             if isinstance(n, ast.If) and isinstance(n.test, ast.Compare) and len(n.test.ops) == 1 and isinstance(n.test.ops[0], (ast.In, ast.NotIn)):
                 cache = n.test.comparators[0]
                 cs = U(cache)
-                if not (cs.startswith('self._') or cs.startswith('cls._')):
+                # the cache may be reached through a local alias and may live on another object (cu.dwarfinfo._cache):
+                # what makes it a memo is a private container that is tested for the key and stored under it
+                resolved = cs
+                if isinstance(cache, ast.Name):
+                    defs0 = [st.value for st in walk_no_nested(f.node) if isinstance(st, ast.Assign) and len(st.targets) == 1 and
+                             isinstance(st.targets[0], ast.Name) and st.targets[0].id == cache.id]
+                    if len(defs0) == 1 and isinstance(defs0[0], ast.Attribute):
+                        resolved = U(defs0[0])
+                if not ((resolved.startswith('self._') or resolved.startswith('cls._')) or
+                        ('.' in resolved and resolved.rsplit('.', 1)[1].startswith('_') and not resolved.rsplit('.', 1)[1].startswith('__'))):
                     continue
                 key = n.test.left
                 stores = [s for s in walk_no_nested(f.node) if isinstance(s, ast.Assign) and isinstance(s.targets[0], ast.Subscript) and
